@@ -286,7 +286,9 @@ class ParseContext(ParserEngine):
         try:
             return exp(self)
         except TypeError as e:
-            if "arguments" in str(e):
+            # NOTE: only when the call itself could not bind its arguments, not for a TypeError from inside it
+            #   (e.g. raised by a semantic action): that one belongs to the caller, and the rule has run already
+            if e.__traceback__ is not None and e.__traceback__.tb_next is None and "arguments" in str(e):
                 return boundcall(exp, {}, self)
             raise
 
